@@ -366,6 +366,10 @@ func (b *Buffer) grow(n int) {
 	} else {
 		newLen = cap(b.core) * 2
 	}
+	// 翻倍一次不一定够用，比如写入一个很长的字符串
+	for newLen-b.Len() < n {
+		newLen *= 2
+	}
 	buf := make([]byte, newLen)
 	Log.Debugf("Buffer::grow. need=%d, old len=%d, cap=%d, new len=%d", n, b.Len(), cap(b.core), newLen)
 	copy(buf, b.core[b.readPos:b.writePos])
